@@ -12,7 +12,8 @@ ASSUMPTIONS = ['since fix D35 no assumption about the position of the root: fram
                'crc32fast is modelled bitwise (CRC-32/ISO-HDLC) and tied by stream (a); its SIMD/table implementation is not verified',
                'hyper/h2 over loopback for stream (c)']
 TRUSTED_BASE = ['correspondence: dcharness (real crc32fast, DataView::using, to_view_bytes, RpcClient/Server) vs dcdriver (Datacake.Rpc.crc32 / checkFrame)']
-THEOREM_NOTE = 'Datacake.Rpc.crc32 / mkFrame / checkFrame (Model/Rpc.lean); theorems frame_roundtrip, single_bit_flip_rejected, short_frame_rejected, value_roundtrip'
+THEOREM_NOTE = 'Datacake.Rpc.crc32 / mkFrame / checkFrame (Model/Rpc.lean); theorems frame_roundtrip, single_bit_flip_rejected, short_frame_rejected, value_roundtrip; Datacake.Exchange (Model/Exchange.lean: to_aligned, the archive of Status, server, client); Props/C12b: toAligned_bytes, readRoot_archive, status_reaches_client, exchange_reply, exchange_error, exchange_refused, exchange_unknown'
+LEAN_MODULES = ['C12', 'C12b']
 JOBS = 8
 SEARCH_ROUNDS = 1
 TYPES = [('M2', 4), ('M1', 8), ('Big', 64), ('Status', 12), ('Payload', 56)]
@@ -70,6 +71,11 @@ def gen_case(rng, idx, heavy):
                 lines.append('roundtrip-narrow vs %02x%02x' % (n >> 8, n & 255))
             if rng.chance(1, 3):
                 lines.append('roundtrip-status %d %s' % (rng.below(5), hx(''.join(rng.choice('ab é/') for _ in range(rng.below(40))).encode())))
+            if rng.chance(1, 2):
+                # the archive of Status, byte for byte against the model (inline up to 7 bytes, padding 0-3, long messages)
+                n = rng.choice([0, 1, 6, 7, 8, 9, 10, 11, 12, 13, rng.below(40), rng.below(300), rng.choice([4093, 65535, 65536, 70001])])
+                msg = ''.join(rng.choice('ab é/\u20ac') for _ in range(n)).encode()[:n].decode('utf-8', 'ignore')
+                lines.append('status-bytes %d %s' % (rng.below(5), hx(msg.encode())))
         else:
             if rng.chance(1, 8):
                 # many large messages in flight at once over one connection (HTTP/2 flow control cuts frames short mid-body)
@@ -154,7 +160,7 @@ def canon(line, out):
         if len(t) >= 2 and t[1] in ('err:2', 'err:3'): t[1] = 'refused'      # an invalid payload, or the transport gave the stream up
         return ' '.join(t)
     # value-level and end-to-end lines have no byte-level model counterpart
-    return 'x' if line.split()[0] in ('roundtrip', 'roundtrip-narrow', 'roundtrip-status', 'echo', 'echo-burst', 'fail') else out
+    return 'x' if line.split()[0] in ('roundtrip', 'roundtrip-narrow', 'roundtrip-status', 'echo', 'echo-burst') else out
 
 
 def kv(out):
